@@ -1,5 +1,8 @@
 """C01 — reader indexing equals NumPy indexing of the concatenated recording (DESIGN.md §5 C01)."""
 import itertools
+import json
+import os
+from fractions import Fraction
 import numpy as np
 from . import common as C
 
@@ -8,14 +11,18 @@ PARALLEL = True
 BATCH = 400
 BUDGET_S = {'quick': 80, 'thorough': 1200}
 RULE = ('layouts: every composition of n <= N into parts of length >= 1 (flat files), single-part '
-        'npy / in-memory array / cbin; channels 1..4; dtypes uint8/int16/int32/float32/float64; header '
+        'npy / in-memory array / cbin (index lists included: the decoder must refuse them or answer as NumPy); channels 1..4; dtypes uint8/int16/int32/float32/float64; header '
         'offsets incl. non-multiples of the row size. Per layout: all ints in [-n,n) (python and numpy '
         'scalars), all slices with bounds in [-n,n] U {None} selecting >= 1 row, strictly increasing '
         'index lists/arrays (all subsets for small n), x column selectors {none, slice, reversed '
         'slice, index list, permutation, 1-element array}. Then random larger layouts. A case = one '
         'layout with a batch of index expressions; non-trivial = layout with >= 2 parts or n >= 3')
 ASSUMPTIONS = ['np.memmap / np.load / mtscomp decoding are transport (byte layout not modelled)',
-               'oracle for reader[item, cols] is A[item][:, cols] (outer indexing)']
+               'oracle for reader[item, cols] is A[item][:, cols] (outer indexing)',
+               'reader attributes: the Lean model builds the reader object of the backend from what the harness OBSERVED '
+               'of the input (sizes of the files on disk, the .ch metadata, the exact rational value of the float sample '
+               'rate) and computes n_samples as the last chunk bound; duration is compared through float(Fraction), the '
+               'correctly rounded value of the single division the real property performs']
 
 VAL = {'uint8': (1, 0), 'int16': (1, -30000), 'int32': (3, -100000), 'float32': (.5, -100.), 'float64': (.25, -1000.),
        '>i2': (1, -30000), '>f4': (.5, -100.), '>u4': (3, 100000)}     # non-native byte order (flat files only)
@@ -48,6 +55,8 @@ def _pyitem(it, kind):
     if kind.startswith('np'):
         # slice bounds of NumPy integer type (e.g. a uint64 spike sample +- a margin)
         s, e = [None if v is None else _npdtype(kind, [v]).type(v) for v in (s, e)]
+    if kind == 'py:step1':
+        return slice(s, e, 1)         # the unit step written out
     return slice(s, e)
 
 
@@ -72,6 +81,15 @@ def _fname(scheme, i):
 
 
 NPKINDS = ['np', 'np:uint64', 'np:uint32', 'np:int32', 'np:uint8', 'np:intp', 'np:uint16']
+# plain Python index objects; `py:step1` writes the unit step of a slice out, `py:tuple1` wraps a row index that has no
+# channel selector into a one-element tuple
+PYKINDS = ['py', 'py', 'py:step1', 'py', 'py:tuple1']
+
+
+def _entry(e):
+    """an index expression of a case: [item, cols, kind] or [item, cols, kind, [c1, c2, ...]] - the latter is
+    evaluated on the derived reader reader[:, c1][:, c2]..."""
+    return e[0], e[1], e[2], (e[3] if len(e) > 3 else [])
 
 
 def impl(case):
@@ -80,6 +98,7 @@ def impl(case):
     n = sum(parts)
     A = _array(n, nch, dtype)
     sr = case.get('sr', 100.)
+    src = {}
     with C.scratch_dir() as d:
         rd = None
         if backend == 'flat':
@@ -91,6 +110,7 @@ def impl(case):
                     f.write(A[off:off + l].tobytes())
                 off += l
                 paths.append(str(p) if case.get('pathkind') == 'str' else p)
+            src = dict(fsizes=[os.stat(str(p)).st_size for p in paths])
             r = get_ephys_reader(paths if len(paths) > 1 or case.get('aslist') else paths[0],
                                  sample_rate=sr, dtype=np.dtype(dtype), n_channels=nch,
                                  offset=case.get('offset', 0))
@@ -111,6 +131,7 @@ def impl(case):
                                  check_after_compress=False, quiet=True)
                 off += l
                 paths.append(d / ('p%d.cbin' % i))
+            src = dict(meta=[json.loads((d / ('p%d.ch' % i)).read_text()) for i in range(len(parts))])
             r = get_ephys_reader(paths)
             rd = r.reader
         elif backend == 'cbin':
@@ -119,6 +140,7 @@ def impl(case):
             mtscomp.compress(d / 'a.bin', d / 'a.cbin', d / 'a.ch', sample_rate=sr, n_channels=nch,
                              dtype=np.dtype(dtype), chunk_duration=case.get('cd', 1.), n_threads=1,
                              check_after_compress=False, quiet=True)
+            src = dict(meta=[json.loads((d / 'a.ch').read_text())])
             rd = mtscomp.Reader(n_threads=1)
             rd.open(d / 'a.cbin', d / 'a.ch')
             r = get_ephys_reader(rd)
@@ -126,10 +148,16 @@ def impl(case):
                      n_channels=int(r.n_channels), dtype=str(np.dtype(r.dtype)),
                      duration=float(r.duration), part_bounds=[int(x) for x in r.part_bounds])
         res = []
-        for it, c, kind in case['items']:
+        for it, c, kind, pre in map(_entry, case['items']):
             item, cols = _pyitem(it, kind), _pycols(c, kind)
+            if kind == 'py:tuple1' and cols is None:
+                item = (item,)            # reader[(i,)]: a one-element index tuple
             keep = (repr(item), repr(cols))
             try:
+                r0 = r
+                for c1 in pre:
+                    # successive deferred channel selections: each returns a derived reader
+                    r = r[:, _pycols(c1, kind)]
                 out = r[item] if cols is None else r[item, cols]
                 if hasattr(out, '_append_op'):
                     # reader[:, cols] is a derived reader (C02); observe it through indexing
@@ -152,10 +180,15 @@ def impl(case):
                 res.append(rec)
             except Exception as e:  # noqa
                 res.append(dict(raised=type(e).__name__, msg=str(e)[:200]))
+            finally:
+                r = r0
         del r
         if rd is not None:
             rd.close()
-    return dict(attrs=attrs, res=res)
+    if 'meta' in src:
+        src['meta'] = [dict(n_channels=int(m['n_channels']), dtype=str(m['dtype']), sample_rate=m['sample_rate'],
+                            chunk_bounds=[int(x) for x in m['chunk_bounds']]) for m in src['meta']]
+    return dict(attrs=attrs, res=res, src=src)
 
 
 def lean_cols(c):
@@ -165,9 +198,33 @@ def lean_cols(c):
     return c
 
 
+def _rat(x):
+    f = Fraction(x)
+    return [f.numerator, f.denominator]
+
+
 def model_query(case, impl_res):
-    return dict(p=PID, op='getitems', parts=case['parts'], nch=case['nch'],
-                items=[[it, lean_cols(c)] for it, c, kind in case['items']])
+    """the recording as the harness observed it on disk (file sizes, .ch metadata), the exact value of the float
+    sample rate, and the index expressions; the Lean driver builds the reader object of the backend from it"""
+    parts, nch, dtype, backend = case['parts'], case['nch'], case['dtype'], case['backend']
+    sr = case.get('sr', 100.)
+    src = (impl_res.get('ok') or {}).get('src') or {}
+    q = dict(p=PID, op='reader', backend=backend, parts=parts, nch=nch, dtype=dtype, rate=_rat(sr),
+             items=[[it, lean_cols(c)] + ([[lean_cols(c1) for c1 in pre]] if pre else [])
+                    for it, c, kind, pre in map(_entry, case['items'])])
+    if backend == 'flat':
+        isz = np.dtype(dtype).itemsize
+        q.update(offset=case.get('offset', 0), itemsize=isz,
+                 fsizes=src.get('fsizes') or [case.get('offset', 0) + l * nch * isz for l in parts])
+    elif backend == 'cbin':
+        meta = src.get('meta')
+        if meta:
+            # what MtscompEphysReader reads: the metadata of the FIRST file decides rate / dtype / channel count
+            q.update(tables=[m['chunk_bounds'] for m in meta], rate=_rat(meta[0]['sample_rate']),
+                     dtype=meta[0]['dtype'], nch=meta[0]['n_channels'])
+        else:
+            q.update(tables=[[0, l] for l in parts])
+    return q
 
 
 def oracle(case):
@@ -175,9 +232,12 @@ def oracle(case):
     n = sum(case['parts'])
     ids = np.arange(n * case['nch']).reshape((n, case['nch']))
     out = []
-    for it, c, kind in case['items']:
+    for it, c, kind, pre in map(_entry, case['items']):
         item, cols = _pyitem(it, 'py'), _pycols(c, 'py')
-        rows = ids[item]
+        B = ids
+        for c1 in pre:
+            B = B[:, _pycols(c1, 'py')]      # A[:, c1][:, c2]... then the rows, then the final selector
+        rows = B[item]
         if rows.ndim == 1:
             rows = rows[np.newaxis, :]
         if cols is not None:
@@ -195,16 +255,48 @@ def judge(case, impl_res, ans):
             impl_res['raised'], impl_res['msg'], impl_res['where'])
     ok = impl_res['ok']
     exp = oracle(case)
-    n = sum(case['parts'])
     a = ok['attrs']
-    if a['shape'] != [n, case['nch']] or a['n_samples'] != n or a['n_channels'] != case['nch'] or \
-            a['dtype'] != case['dtype'] or a['duration'] != n / float(case.get('sr', 100.)):
-        return 'SPEC: reader shape/sample count/channel count/dtype/duration differ from the concatenated array: %s' % a
-    if a['part_bounds'] != m['part_bounds'] and case['backend'] == 'flat':
-        return 'CORR: part_bounds differ from the model'
+    sa, ma = m['spec_attrs'], m['attrs']
+
+    def differs(x):
+        """real attributes vs attributes from the driver (duration: exact rational -> correctly rounded float)"""
+        if x is None:
+            return 'no reader'
+        for k in ('shape', 'n_samples', 'n_channels'):
+            if a[k] != x[k]:
+                return k
+        if np.dtype(a['dtype']) != np.dtype(x['dtype']):
+            return 'dtype'
+        d = x['duration']
+        if d is None or a['duration'] != float(Fraction(*d) if isinstance(d, list) else Fraction(d)):
+            return 'duration'
+        return None
+    multi_cbin = case['backend'] == 'cbin' and len(case['parts']) > 1
+    for mt, l in zip((ok.get('src') or {}).get('meta') or [], case['parts']):
+        # the decoder contract the theorems assume (SrcOK): the metadata mtscomp wrote describe what was compressed
+        if mt['n_channels'] != case['nch'] or np.dtype(mt['dtype']) != np.dtype(case['dtype']) or \
+                mt['chunk_bounds'][-1] != l or mt['sample_rate'] != case.get('sr', 100.):
+            return 'MACHINERY: mtscomp metadata %s do not describe the compressed part (%d rows)' % (mt, l)
+    why = differs(sa)
+    if why:
+        return ('SPEC: reader %s differs from the concatenated array: %s (concatenation: %s)' % (why, a, sa))
+    if not multi_cbin and differs(ma):
+        # the real attributes are those of the concatenation, the model's are not: contradicts reader_attrs_eq_concat
+        return 'MACHINERY: Lean reader model attributes %s differ from the concatenated array %s' % (ma, sa)
+    if ma is None or a['part_bounds'] != ma['part_bounds']:
+        return 'CORR: part_bounds differ from the model (%s vs %s)' % (a['part_bounds'], ma and ma['part_bounds'])
     for k, (r, e, mm) in enumerate(zip(ok['res'], exp, m['res'])):
         if mm['spec'] != e:
             return 'MACHINERY: Lean spec differs from NumPy oracle at item %d' % k
+        if mm['model'] == 'refused':
+            # compressed file, index list: outside the quantifier ("except on compressed files whose decoder does
+            # not offer it") - a refusal by any exception is fine, an ANSWER must be NumPy's
+            if case['backend'] != 'cbin' or 'list' not in case['items'][k][0]:
+                return 'MACHINERY: model refuses item %d on backend %s' % (k, case['backend'])
+            if 'raised' not in r and r['ids'] != e:
+                return ('SPEC: item %d: an index list on a compressed file was answered, with rows that differ from '
+                        'NumPy indexing of the concatenation' % k)
+            continue
         if mm['model'] != e:
             return 'MACHINERY: Lean model differs from its spec at item %d (contradicts the theorem)' % k
         if 'raised' in r:
@@ -230,17 +322,23 @@ def tally(rep, case, impl_res, ans):
     rep.count('dtype:' + case['dtype'])
     rep.count('parts:%d' % min(len(case['parts']), 6))
     rep.count('index_expressions', len(case['items']))
-    for it, c, kind in case['items']:
+    for it, c, kind, pre in map(_entry, case['items']):
+        if pre:
+            rep.count('derived_reader:%d deferred selection(s) then %s' % (len(pre), 'rows' if c is None else 'rows+cols'))
         rep.count('item:' + next(iter(it)))
         rep.count('cols:' + ('none' if c is None else next(iter(c))))
         rep.count('index_type:' + kind)
+    if case['backend'] == 'cbin' and 'ok' in impl_res and 'ok' in ans:
+        for r, mm in zip(impl_res['ok']['res'], ans['ok']['res']):
+            if mm['model'] == 'refused':
+                rep.count('cbin_index_list:' + (r['raised'] if 'raised' in r else 'answered'))
     if case['backend'] == 'flat':
         rep.count('file_names:%s/%s' % (case.get('names', 'idx'), case.get('pathkind', 'path')))
     rep.extra['index_expressions_total'] = rep.hist.get('index_expressions', 0)
 
 
 def classify(case, impl_res, ans, why):
-    it, c, kind = case['items'][0] if case['items'] else ({}, None, '')
+    it, c, kind, pre = _entry(case['items'][0]) if case['items'] else ({}, None, '', [])
     raised = None
     if 'ok' in impl_res and impl_res['ok']['res'] and 'raised' in impl_res['ok']['res'][0]:
         raised = impl_res['ok']['res'][0]['raised']
@@ -252,6 +350,17 @@ def classify(case, impl_res, ans, why):
 
 
 def shrink(case):
+    """candidates of `_shrink` on which NumPy itself accepts the index expressions (dropping a deferred selection
+    changes the width the following selectors refer to)"""
+    for c in _shrink(case):
+        try:
+            oracle(c)
+        except Exception:  # noqa
+            continue
+        yield c
+
+
+def _shrink(case):
     items = case['items']
     if len(items) > 1:
         for i in range(len(items)):
@@ -260,7 +369,12 @@ def shrink(case):
         return
     parts = case['parts']
     n = sum(parts)
-    it, cs, kind = items[0]
+    it, cs, kind, pre = _entry(items[0])
+    if pre:
+        # fewer deferred selections first
+        for i in range(len(pre)):
+            c = dict(case); c['items'] = [[it, cs, kind, pre[:i] + pre[i + 1:]]]
+            yield c
 
     def ok_item(it, n):
         if 'int' in it:
@@ -280,11 +394,11 @@ def shrink(case):
                 c = dict(case); c['parts'] = p2
                 yield c
     if cs is not None:
-        c = dict(case); c['items'] = [[it, None, kind]]
+        c = dict(case); c['items'] = [[it, None, kind, pre]]
         yield c
     if 'list' in it and len(it['list']) > 1:
         for i in range(len(it['list'])):
-            c = dict(case); c['items'] = [[dict(list=it['list'][:i] + it['list'][i + 1:]), cs, kind]]
+            c = dict(case); c['items'] = [[dict(list=it['list'][:i] + it['list'][i + 1:]), cs, kind, pre]]
             yield c
     if case['dtype'] != 'int16':
         c = dict(case); c['dtype'] = 'int16'
@@ -333,6 +447,28 @@ def col_selectors(nch, rng):
     return sel
 
 
+def _width(nch, c):
+    return len(np.arange(nch)[_pycols(c, 'py')]) if c is not None else nch
+
+
+def chained(nch, items, rng, k):
+    """index expressions on derived readers: r1 = reader[:, c1]; r1[rows, c2]   and   reader[:, c1][:, c2][rows]
+    with selections that do not commute (permutations, reversed slices, index lists and masks of different widths)"""
+    out = []
+    for j in range(k):
+        c1 = rng.pick([c for c in col_selectors(nch, rng) if c is not None])
+        w1 = _width(nch, c1)
+        c2 = rng.pick([c for c in col_selectors(w1, rng) if c is not None])
+        it = rng.pick(items)
+        kind = rng.pick(['py', 'py', 'np'])
+        out.append([it, c2, kind, [c1]])
+        out.append([it, None, kind, [c1, c2]])
+        if j % 3 == 0:
+            c3 = rng.pick([c for c in col_selectors(_width(w1, c2), rng) if c is not None])
+            out.append([it, c3, kind, [c1, c2]])
+    return out
+
+
 def gen(tier, rng):
     q = tier == 'quick'
     N = 5 if q else 7
@@ -349,10 +485,11 @@ def gen(tier, rng):
                 sels = col_selectors(nch, rng)
                 its = []
                 for j, it in enumerate(items):
-                    kind = NPKINDS[(j + k) % len(NPKINDS)] if (j + k) % 3 == 0 else 'py'
+                    kind = NPKINDS[(j + k) % len(NPKINDS)] if (j + k) % 3 == 0 else PYKINDS[(j + k) % len(PYKINDS)]
                     its.append([it, sels[(j + k) % len(sels)], kind])
                     if (j + k) % 5 == 0:
                         its.append([it, None, kind])
+                its += chained(nch, items, rng, 2 if nch == 1 else 6)
                 yield dict(p=PID, backend='flat', parts=parts, nch=nch, dtype=dtype,
                            offset=[0, 7, isz * nch * 2, 1][k % 4], sr=[100., 1000., 2.5][k % 3], items=its,
                            aslist=bool(k % 2), names=['idx', 'rev', 'nat'][k % 3],
@@ -365,11 +502,11 @@ def gen(tier, rng):
             sels = col_selectors(nch, rng)
             its = []
             for j, it in enumerate(items):
-                if backend == 'cbin' and 'list' in it:
-                    continue
-                kind = NPKINDS[(j + k) % len(NPKINDS)] if (j + k) % 3 == 0 and backend != 'cbin' else 'py'
+                # compressed files: index lists too (the decoder has to refuse them or answer as NumPy does)
+                kind = NPKINDS[(j + k) % len(NPKINDS)] if (j + k) % 3 == 0 else PYKINDS[(j + k) % len(PYKINDS)]
                 its.append([it, sels[(j + k) % len(sels)], kind])
-            c = dict(p=PID, backend=backend, parts=[n], nch=nch, dtype=dtype, sr=[10., 100.][k % 2],
+            its += chained(nch, [it for it in items if backend != 'cbin' or 'list' not in it], rng, 4)
+            c = dict(p=PID, backend=backend, parts=[n], nch=nch, dtype=dtype, sr=[10., 100., 1 / 256][k % 3 if backend != 'cbin' else k % 2],
                      cd=[1., .2][k % 2], items=its, npy_order='C')
             yield c
             if backend == 'npy' and nch >= 2:
@@ -405,7 +542,11 @@ def gen(tier, rng):
                 cand = set(rng.sample(range(n), min(n, rng.randrange(1, 12))))
                 cand |= {x for x in (rng.pick(b[:-1]), rng.pick(b[1:]) - 1) if 0 <= x < n}
                 it = dict(list=sorted(cand))
-            its.append([it, rng.pick(sels), rng.pick(['py'] + NPKINDS)])
+            its.append([it, rng.pick(sels), rng.pick(PYKINDS + NPKINDS)])
+        its += chained(nch, [e[0] for e in its], rng, 3)
+        # sample rates: usual ones (one chunk) and slow ones whose 600 s chunk is 21 / 37.5 / 112.5 / 9.375 samples, so
+        # that n_samples = chunk_bounds[-1] is the end of a real chunk list
         yield dict(p=PID, backend='flat', parts=parts, nch=nch, dtype=dtype, offset=rng.pick([0, 0, 5, 128]),
-                   sr=rng.pick([100., 30000.]), items=its, aslist=True, names=rng.pick(['idx', 'rev', 'nat']),
+                   sr=rng.pick([100., 30000., 0.035, 1 / 16, 3 / 16, 1 / 64]), items=its, aslist=True,
+                   names=rng.pick(['idx', 'rev', 'nat']),
                    pathkind=rng.pick(['path', 'str']))
